@@ -1047,3 +1047,53 @@ def rule_wrap_not_type(prog, rep, tier):
                     "broken, and it is read back with the break (and the continuation indent) inside it, or not at all" % (src(el, 50), src(hit, 30)), loc(prog, hit)))
             else:
                 rep.holds("WRAP-NOT-TYPE", inst, loc(prog, node), "no part of the wrapped text is read from the entry's type")
+
+
+# ---------------------------------------------------------------------------- DOC-ALL-LINES
+def rule_doc_all_lines(prog, rep, tier, entry="docstring_parsers.parse_docstring"):
+    """DOC-ALL-LINES (C18, C01): a description can run over several lines (the writer wraps it).  Where a reader builds an entry's
+    'doc' from the scanner's lines, it takes all of them (a slice, a join) - a single line picked by a constant index >= 1
+    leaves the continuation lines unread (and raises when the block is shorter), unless the length of that very sequence is
+    pinned by a `len(..) == n` test on the way."""
+    from sa.cfg import facts
+    start = prog.fn(entry)
+    n = 0
+    for f in prog.reachable([start]):
+        if f.module is not start.module:
+            continue
+        for d in ast.walk(f.node):
+            if not isinstance(d, ast.Dict):
+                continue
+            for k, v in zip(d.keys, d.values):
+                if not (isinstance(k, ast.Constant) and k.value == "doc"):
+                    continue
+                for s_ in ast.walk(v):
+                    if not (isinstance(s_, ast.Subscript) and isinstance(s_.slice, ast.Constant) and isinstance(s_.slice.value, int) and s_.slice.value >= 1):
+                        continue
+                    if not isinstance(s_.value, (ast.Subscript, ast.Name)):
+                        continue
+                    # only sequences that come from the scanner (indexed containers, not tuples unpacked from a partition)
+                    if isinstance(s_.value, ast.Name):
+                        defs = [st.value for st in ast.walk(f.node) if isinstance(st, ast.Assign) and any(isinstance(t, ast.Name) and t.id == s_.value.id for t in st.targets)]
+                        if any(isinstance(x, ast.Call) and isinstance(x.func, ast.Attribute) and x.func.attr in ("partition", "rpartition") for dv in defs for x in ast.walk(dv)):
+                            continue
+                    n += 1
+                    key = dump(s_.value)
+                    pinned = False
+                    for t, pol in expr_guards(s_, stop=f.node):
+                        for atom, p_ in facts(t, pol):
+                            if isinstance(atom, ast.Compare) and len(atom.ops) == 1 and isinstance(atom.ops[0], ast.Eq) and p_ and isinstance(atom.left, ast.Call) \
+                                    and isinstance(atom.left.func, ast.Name) and atom.left.func.id == "len" and atom.left.args and dump(atom.left.args[0]) == key \
+                                    and isinstance(atom.comparators[0], ast.Constant) and atom.comparators[0].value == s_.slice.value + 1:
+                                pinned = True
+                    inst = "%s: doc from %s" % (prog.owner_name(f), src(s_, 50))
+                    if pinned:
+                        rep.holds("DOC-ALL-LINES", inst, loc(prog, s_), "the sequence has exactly %d elements there" % (s_.slice.value + 1))
+                    else:
+                        tag = style_path_tag(prog, start, f, s_)
+                        rep.violation(Finding(
+                            "DOC-ALL-LINES", prog.owner_name(f), "description-from-one-line:%s" % tag,
+                            "the description is taken from the single element %s of the scanned lines: what the writer wrapped onto further lines is dropped when it is "
+                            "read back (and a block without that line raises IndexError); the parameter reader of the same style joins `lines[1:]`" % src(s_, 50), loc(prog, s_)))
+    if n == 0:
+        rep.ob("DOC-ALL-LINES", "no description is taken from a single scanned line", "holds", "", "entries are built from slices / joins of the scanned lines")
